@@ -39,7 +39,7 @@ func (c25) Describe() engine.Info {
 	return engine.Info{
 		Rule: "scenario = 2..3 workloads (test ROMs, generated programs, random scenes, random code; different cartridges and configurations) + creation order + an explicit interleaving schedule of slices (1..3 cycles, a few hundred cycles, whole frames; some instances created while others are mid-run). " +
 			"Oracle: each instance's checkpoint digests (every 2048 of its own cycles) and final state digest equal those of its solo run in the same process. Signature = (workload kinds, slice granularity class, created-mid-run). " +
-			"Class concurrent (one scenario in ten): 2..4 instances without simulated devices are constructed and run by goroutines released together inside a race-detector build of the simulator (child process); each trace must equal its solo trace and no data race may be reported in emulator frames. Workloads mix DebugLCD configurations and MBC3 cartridges that use their clock registers. Class interleave-crowd: 9..13 instances alive at once; class interleave-same-shape: all instances carry cartridges of one shape (8 MiB MBC5 among them); every checkpoint reads the ROM windows over the bus. The trace contains every bus read and write of each CPU; clock cartridges for all instances of a scenario with single-cycle slices throughout; instances without outputs are released a second time.",
+			"Class concurrent (one scenario in ten): 2..4 instances without simulated devices are constructed and run by goroutines released together inside a race-detector build of the simulator (child process); each trace must equal its solo trace and no data race may be reported in emulator frames. Workloads mix DebugLCD configurations and MBC3 cartridges that use their clock registers. Class interleave-crowd: 9..13 instances alive at once; class interleave-same-shape: all instances carry cartridges of one shape (8 MiB MBC5 among them); every checkpoint reads the ROM windows over the bus. The trace contains every bus read and write of each CPU; clock cartridges for all instances of a scenario with single-cycle slices throughout; instances without outputs are released a second time. One scenario in three uses one ROM file name for all instances; far pages read straight after construction must be those of the image given; timer-less MBC3 shapes.",
 		Assumptions: []string{
 			"interleaving is cooperative and decided by the seed, except in class concurrent, where real threads run unscheduled: for code that shares nothing neither of its verdicts (digest difference, happens-before race report) depends on the interleaving, so it cannot alarm on a correct tree",
 			"a panic of the emulator ends that instance's run; it must occur at the same cycle as in the solo run",
